@@ -257,3 +257,5 @@ def run(ck):
         signature_pairing(ck, prog, rid='C02.4')
         from rules.C01 import c01_10
         c01_10(ck, prog, 'C02.8')
+        from rules.C15 import c15_10
+        c15_10(ck, prog, 'C02.9')
